@@ -58,7 +58,6 @@ func (e *StorageEngine) getInt(addr oid.Address) (*object.Object, error) {
 
 func (e *StorageEngine) get(addr oid.Address, shardFunc func(s *shard.Shard, ignoreMetadata bool) error) error {
 	var (
-		hasDegraded   bool
 		shardWithMeta shardWrapper
 		splitInfo     *object.SplitInfo
 		metaError     error
@@ -66,7 +65,6 @@ func (e *StorageEngine) get(addr oid.Address, shardFunc func(s *shard.Shard, ign
 
 	for _, sh := range e.sortedShards(addr.Object()) {
 		noMeta := sh.GetMode().NoMetabase()
-		hasDegraded = hasDegraded || noMeta
 
 		err := shardFunc(sh.Shard, noMeta)
 		if err != nil {
@@ -113,7 +111,9 @@ func (e *StorageEngine) get(addr oid.Address, shardFunc func(s *shard.Shard, ign
 		return logicerr.Wrap(object.NewSplitInfoError(splitInfo))
 	}
 
-	if !hasDegraded && shardWithMeta.Shard == nil {
+	// Shards without a metabase have already been read directly above, so
+	// the object is missing unless some shard has metadata for it.
+	if shardWithMeta.Shard == nil {
 		return apistatus.ObjectNotFound{}
 	}
 
